@@ -79,6 +79,7 @@ share one descriptor closed by the last clone; an attachment that was never conv
 descriptor; a set closes its members; a region closes its backing store once and unmaps exactly the mapped length; every
 way a descriptor enters the process (socketpair, socket, accept4, recvmsg, dup, memfd) asks for close-on-exec. -/
 theorem C11_shape : Gen.shape_receiverOwnsOnce = true ∧ Gen.shape_senderSharedDescriptor = true ∧ Gen.shape_opaqueOwnsUntilConverted = true ∧
-    Gen.shape_setClosesMembers = true ∧ Gen.shape_regionReleases = true ∧ Gen.shape_everythingCloexec = true := by decide
+    Gen.shape_setClosesMembers = true ∧ Gen.shape_regionReleases = true ∧ Gen.shape_everythingCloexec = true ∧
+    Gen.shape_connectOwnsBeforeFallible = true := by decide
 
 end C11
